@@ -14,6 +14,18 @@ failure reporting and "own outcome or shut-down" (the hook, like a kill, is outs
 task execution").  The stand-in of a RepeatingEngine ends only after ComponentState told it
 notify_all_producers_finished (or after kill()), as the real one: an observer that is never told keeps its stage
 loop from terminating.
+With real engines an execution may also be followed by a fault of the engine's OWN post-exit bookkeeping (script
+entries "X:perf" / "X:matrix": the task exits with X, then FinalisePerformanceInfo raises, so that
+HandleTaskObservableException instead of HandleTaskExit sets the exit reason): the exit reason of the execution is
+still X, the rules apply unchanged (a successful task gives finished).
+DoWhile groups (gen_loop_group / check_loop_group): packages whose set of components GROWS while the stage runs (1-2
+looped components, 1-4 iterations, loop in stage 0 or 1, consumers outside the loop), exit scripts fixed for every
+iteration before the run (success / restart / unrecoverable exit in iteration 0 / in an iteration >= 1 / outside the
+loop / shutdown reason), several schedules each run to the verdict of every run(); oracle only (termination, every
+component final and recorded, exactly one final state, a failed component <=> its stage's run() raised
+UnexpectedJobFailureError and the stage state is failed, no component failed without an unrecoverable exit, every
+final state the component's own outcome or shut-down, all-success => everything finished, the number of iterations
+the condition asks for, every stage run); what the verdict must inspect when the stage grows: Props/C02.lean part I.
 Oracle (model independent, harness/ctrl_sim.py: expected_states / own_outcome restate the documented rules):
   * every run() terminates, every component of every stage that was run ends final and recorded in comp_done;
   * a component that was seen in a final state is never seen in another state afterwards (stage transitions
@@ -48,7 +60,11 @@ RULE = ("case = (FlowIR template of 2-8 components over 1-3 stages - random, or 
         "script per component - also restarts followed by failing re-submissions, with real engines by a task generator "
         "that raises -; stand-in or real engines; K schedules (quick 5, thorough 10) each run through the whole stage loop: "
         "Controller.run() per stage, initialise() of the next one; in 40% of the groups all but the first schedule may "
-        "fire the stage-completion hook).  Non-trivial = >= 3 components after "
+        "fire the stage-completion hook); with real engines an execution may be followed by a fault of the engine's own "
+        "post-exit bookkeeping.  Or: DoWhile package (1-2 looped components, 1-4 iterations, consumers outside the loop; "
+        "exit scripts per iteration: success / restart / unrecoverable exit in iteration 0, in a later iteration, outside "
+        "the loop / shutdown reason; K-2 schedules run to the verdict; non-trivial = >= 2 iterations, >= 2 distinct op "
+        "sequences, some component not finished or restarted).  Non-trivial (plain group) = >= 3 components after "
         "replication, >= 2 distinct op sequences among the K schedules and at least one component ends shut-down or "
         "failed or was restarted (the rules beyond 'success gives finished' are exercised).  Distinct by canonical "
         "JSON of (template, scripts).")
@@ -178,8 +194,13 @@ def check_group(ctx, case, schedules=None, tag_prefix=""):
            for c in comps_):
         tags.append("has:aggregator-in-later-stage-than-replicas")
     tags.append("engines:" + ("real" if case.get("real") else "fake"))
-    if any(":" in x for sc in scripts.values() for x in sc):
+    if any(x.partition(":")[2] in ("os", "launch", "raise") for sc in scripts.values() for x in sc):
         tags.append("script:launch-raises")
+    if any(x.partition(":")[2] in ("perf", "matrix") for sc in scripts.values() for x in sc):
+        tags.append("script:engine-fault-after-task-exit")
+        if any(x.partition(":")[0] == "Success" and x.partition(":")[2] in ("perf", "matrix")
+               for sc in scripts.values() for x in sc):
+            tags.append("script:engine-fault-after-successful-task")
     if any(any(CS.base_reason(x) == "SubmissionFailed" and k > 0 and CS.base_reason(sc[k - 1]) != "SubmissionFailed"
                for k, x in enumerate(sc)) for sc in scripts.values()):
         tags.append("script:submission-fails-after-a-restart")
@@ -315,6 +336,168 @@ def check_group(ctx, case, schedules=None, tag_prefix=""):
     return runs
 
 
+# ----------------------------------------------------------------------------------------------------
+# workflows whose set of components GROWS while the stage runs (DoWhile): run to the verdict
+# ----------------------------------------------------------------------------------------------------
+
+FATAL = ["UnknownIssue", "KnownIssue", "SystemIssue", "Cancelled"]
+
+
+def gen_loop_group(rng, k):
+    """One DoWhile package (CS.gen_loop_case: 1-2 looped components in stage 0/1, consumers outside the loop in the
+    same / the next stage, optional source and bystander) + an exit script for every task execution, fixed BEFORE the
+    run for every component that can come to exist (iteration j of a looped component is `stage<S>.<j>#<name>`):
+      success       every task succeeds;
+      restart       an iteration of a looped component is restarted once (ResourceExhausted, then Success);
+      fail-late     a looped component exits unrecoverably in iteration j >= 1: in a component that did not exist when
+                    run() of the stage started;
+      fail-first    ... in iteration 0;
+      fail-outside  a component outside the loop (consumer / bystander / source) exits unrecoverably;
+      shutdown      an iteration of a looped component exits with a reason on its shutdownOn list."""
+    base = CS.gen_loop_case(rng)
+    lp = base["loop"]
+    S = lp["stage"]
+    looped = ["work"] + (["check"] if lp["two"] else [])
+    flavour = rng.choice(["success", "restart", "fail-late", "fail-late", "fail-late", "fail-late", "fail-first",
+                          "fail-outside", "shutdown"])
+    if flavour in ("fail-late", "shutdown", "restart") and lp["iters"] < 2:
+        lp["iters"] = rng.choice([2, 3])
+    real = rng.random() < 0.3
+    scripts = {}
+
+    def fatal(name):
+        wa = lp["wa"].get(name, {})
+        pool = [x for x in FATAL if x not in wa.get("shutdownOn", []) and x not in wa.get("restartHookOn", [])]
+        return rng.choice(pool)
+    if flavour in ("fail-late", "fail-first"):
+        name = rng.choice(looped)
+        j = 0 if flavour == "fail-first" else rng.randrange(1, lp["iters"])
+        pre = ["ResourceExhausted"] if rng.random() < 0.2 else []      # restarted once (default policy), then fatal
+        scripts["stage%d.%d#%s" % (S, j, name)] = pre + [fatal(name)]
+    elif flavour == "fail-outside":
+        outside = [("stage%d.%s" % (c["stage"], c["name"])) for c in lp["consumers"]]
+        if lp["bystander"]:
+            outside.append("stage%d.other" % S)
+        if lp["src"] and rng.random() < 0.3:
+            outside.append("stage0.src")
+        scripts[rng.choice(outside)] = [fatal("")]
+    elif flavour == "shutdown":
+        name = rng.choice(looped)
+        wa = lp["wa"].setdefault(name, {})
+        if not wa.get("shutdownOn"):
+            wa["shutdownOn"] = ["KnownIssue"]
+        scripts["stage%d.%d#%s" % (S, rng.randrange(lp["iters"]), name)] = [rng.choice(wa["shutdownOn"])]
+    elif flavour == "restart":
+        name = rng.choice(looped)
+        scripts["stage%d.%d#%s" % (S, rng.randrange(lp["iters"]), name)] = ["ResourceExhausted", "Success"]
+    if real:
+        # the engine's own bookkeeping fails after some successful tasks (see CS.base_reason)
+        for j in range(lp["iters"]):
+            for name in looped:
+                r = "stage%d.%d#%s" % (S, j, name)
+                if r not in scripts and rng.random() < 0.2:
+                    scripts[r] = ["Success:" + rng.choice(["perf", "matrix"])]
+    return {"loop": lp, "scripts": scripts, "seed": rng.randrange(1 << 30), "k": k, "real": real,
+            "flavour": flavour}
+
+
+def check_loop_group(ctx, case, schedules=None, tag_prefix=""):
+    """case = {"loop", "scripts", "seed", "k", "real"}; the same package and scripts under K schedules, each run through
+    the whole stage loop.  Oracle only (the Lean model `St4sd.Ctrl` has a fixed set of components; what the verdict of
+    run() must look at when the set grows is `Ctrl.verdictOn`, Props/C02.lean part I)."""
+    rng = random.Random(case.get("seed", 0))
+    lp = case["loop"]
+    k = case.get("k", 4)
+    pers = sorted(CS.PERSONALITIES)
+    runs = []
+    n_runs = len(schedules) if schedules is not None else k
+    for j in range(n_runs):
+        if schedules is not None:
+            factory = (lambda ops: (lambda sim: detsim.scripted(ops, finish=True)))(schedules[j])
+        else:
+            p = pers[(j + rng.randrange(len(pers))) % len(pers)] if j else "eager"
+            factory = (lambda p: (lambda sim: CS.random_chooser(rng, p, 0.0)))(p)
+        try:
+            res = CS.run_loop(dict(case, scripts={r: list(v) for r, v in (case.get("scripts") or {}).items()},
+                                   _rng=None, flavour="given"), factory)
+        except Exception as exc:  # noqa: the generated package was rejected / could not be built
+            ctx.tag(tag_prefix + "loop-build-error:" + type(exc).__name__)
+            return None
+        runs.append(res)
+    full = dict(case)
+    full["schedules"] = [r.ops for r in runs]
+    tags = [tag_prefix + "loop-group", "loop:flavour:" + str(case.get("flavour")),
+            "loop:engines:" + ("real" if case.get("real") else "fake"), "loop:condition-by:" + lp["cond"],
+            "loop:stage=%d" % lp["stage"]]
+    for r in runs:
+        tags.append("loop:result:" + r.result)
+        tags.append("loop:iterations=%d" % r.iterations)
+    distinct_ops = len(set(common.canon(r.ops) for r in runs))
+    interesting = any(st != "finished" for r in runs for st in r.final) or any(n > 1 for r in runs for n in r.execs)
+    ctx.case({"loop": lp, "scripts": case.get("scripts")},
+             nontrivial=(max(r.iterations for r in runs) >= 2 and distinct_ops >= 2 and interesting), tags=tags)
+    ctx.tag("schedules-run", len(runs))
+    all_ok_scripts = True
+    for r in runs:
+        refs = r.refs
+        n = len(refs)
+        pol = r.policy
+        own = [CS.own_outcome(pol[i], r.scripts.get(refs[i], [])) for i in range(n)]
+        need = [CS.own_executions(pol[i], r.scripts.get(refs[i], [])) for i in range(n)]
+        detail = {"refs": refs, "final": r.final, "results": r.results, "own": own, "execs": r.execs,
+                  "stage_of": r.stage_of, "done": r.done, "stage_states": r.stage_states, "scripts": r.scripts}
+        if r.result == "stopped":
+            ctx.fail("stage-loop-did-not-terminate", full, dict(detail, live=r.live, schedule=r.ops))
+            continue
+        n_run = len(r.results)
+        in_run = [r.stage_of[i] < n_run for i in range(n)]
+        if any((r.final[i] not in CS.FINAL or not r.done[i]) for i in range(n) if in_run[i]):
+            ctx.fail("component-not-final-after-run", full, detail)
+        for i, was, now in r.flips:
+            ctx.fail("component-left-its-final-state", full, dict(detail, component=refs[i], was=was, now=now))
+        if r.pool_errors:
+            ctx.compare("no exception escapes a callback run on the controller pool", full, {"errors": []},
+                        {"errors": r.pool_errors})
+        failed = [i for i in range(n) if r.final[i] == "failed"]
+        ujf = [kk for kk, x in enumerate(r.results) if x == "UnexpectedJobFailureError"]
+        # a task exited unrecoverably: the execution whose exit the restart policy does not absorb really happened
+        fatal_exit = [i for i in range(n) if own[i] == "failed" and r.execs[i] >= need[i]]
+        if any(own[i] != "finished" for i in range(n)):
+            all_ok_scripts = False
+        if failed:
+            tags_ = "loop:failed-component-of-iteration>=1" if any("#" in refs[i] and not refs[i].split(".", 1)[1]
+                                                                   .startswith("0#") for i in failed) else \
+                "loop:failed-component-existed-at-start"
+            ctx.tag(tags_)
+            not_reported = [refs[i] for i in failed if in_run[i] and r.stage_of[i] not in ujf]
+            if not_reported or not any(in_run[i] for i in failed):
+                ctx.fail("failure:not-reported-by-run", full, dict(detail, not_reported=not_reported))
+            if any(in_run[i] and r.stage_states[r.stage_of[i]] != "failed" for i in failed):
+                ctx.fail("failure:stage-state-not-failed", full, detail)
+            if any(own[i] != "failed" for i in failed):
+                ctx.fail("component-failed-without-unrecoverable-exit", full, detail)
+        elif fatal_exit:
+            ctx.fail("failure:no-component-failed", full, dict(detail, fatal_exit=[refs[i] for i in fatal_exit]))
+        bad = [refs[i] for i in range(n) if r.final[i] in CS.FINAL and r.final[i] not in ("shutdown", own[i])]
+        if bad:
+            ctx.fail("failure:component-not-in-rule-state-or-shutdown" if failed else
+                     "final-state-differs-from-rules", full, dict(detail, bad=bad))
+        if ujf and not any(r.stage_of[i] in ujf for i in failed):
+            ctx.fail("run-reports-failure-without-failed-component", full, detail)
+        if all(o == "finished" for o in own):
+            # every task succeeds (possibly after restarts): success gives finished, for every component of every
+            # iteration, the loop runs the number of iterations its condition asks for, every stage is run
+            if any(st != "finished" for st in r.final) or any(x != "ok" for x in r.results):
+                ctx.fail("final-state-differs-from-rules", full, detail)
+            if r.iterations != lp["iters"]:
+                ctx.fail("loop:number-of-iterations-differs", full, dict(detail, iterations=r.iterations))
+            if n_run != int(max(r.stage_of)) + 1:
+                ctx.fail("stage-loop-ended-early-without-failure", full, detail)
+    if all_ok_scripts and len(set(common.canon([r.refs, r.final]) for r in runs if r.result != "stopped")) > 1:
+        ctx.fail("final-state-depends-on-schedule", full, {"finals": [[r.refs, r.final] for r in runs]})
+    return runs
+
+
 def gen_case(rng, k):
     template, cont = CS.gen_workflow(rng)
     return {"template": template, "cont": cont, "scripts": None, "seed": rng.randrange(1 << 30),
@@ -421,6 +604,32 @@ CORPUS = [
      "cont": [], "real": True, "seed": 8, "k": 3,
      "scripts": {"stage0.c0": ["ResourceExhausted", "SubmissionFailed:os", "SubmissionFailed:launch",
                                "SubmissionFailed:os", "Success"]}},
+    # real engines: the engine's own bookkeeping fails AFTER the task exited (performance information unavailable /
+    # performance table cannot be updated): the reason of the execution is still the task's - both tasks succeed, both
+    # components must end finished; c1 of the second case is restarted once and then succeeds, twice with a fault
+    {"template": [{"name": "c0", "stage": 0, "refs": [], "wa": {}},
+                  {"name": "c1", "stage": 0, "refs": [], "wa": {}}],
+     "cont": [], "real": True, "seed": 31, "k": 3,
+     "scripts": {"stage0.c0": ["Success:matrix"], "stage0.c1": ["Success"]}},
+    {"template": [{"name": "c0", "stage": 0, "refs": [], "wa": {"shutdownOn": ["KnownIssue"]}},
+                  {"name": "c1", "stage": 0, "refs": [0], "wa": {"restartHookOn": ["ResourceExhausted"]}},
+                  {"name": "c2", "stage": 1, "refs": [1], "wa": {}}],
+     "cont": [], "real": True, "seed": 32, "k": 3,
+     "scripts": {"stage0.c0": ["Success:perf"], "stage0.c1": ["ResourceExhausted:perf", "Success:matrix"],
+                 "stage1.c2": ["Success:perf"]}},
+    # DoWhile: the second iteration of the looped component (a component that does not exist when run() starts) exits
+    # unrecoverably: it ends failed and the run() of its stage must raise UnexpectedJobFailureError; second case: the
+    # failing iteration is the one of a second looped component, the loop lives in stage 1, real engines
+    {"loop": {"stage": 0, "iters": 2, "src": False, "two": False, "cond": "work",
+              "consumers": [{"name": "after", "stage": 0, "of": "work", "method": "ref"}], "bystander": True,
+              "wa": {"work": {}}},
+     "scripts": {"stage0.1#work": ["UnknownIssue"]}, "seed": 41, "k": 3, "real": False, "flavour": "fail-late"},
+    {"loop": {"stage": 1, "iters": 3, "src": True, "two": True, "cond": "check",
+              "consumers": [{"name": "after", "stage": 2, "of": "work", "method": "ref"},
+                            {"name": "collect", "stage": 1, "of": "work", "method": "loopref"}], "bystander": False,
+              "wa": {"work": {}, "check": {"shutdownOn": ["Cancelled"]}}},
+     "scripts": {"stage1.2#work": ["ResourceExhausted", "KnownIssue:perf"], "stage1.0#check": ["Success:matrix"]},
+     "seed": 42, "k": 3, "real": True, "flavour": "fail-late"},
     {"template": [{"name": "c0", "stage": 0, "refs": [], "wa": {"maxRestarts": 2}},
                   {"name": "c1", "stage": 0, "refs": [0], "wa": {}}],
      "cont": [], "real": True, "seed": 9, "k": 3,      # both restarts spent: the next failed submission is final
@@ -449,9 +658,12 @@ def setup(ctx):
                            "scripts/elaunch.py:Run is restated in harness/detsim.py (Sim.run)")
 
 
-def run_n(ctx, n, k):
+def run_n(ctx, n, k, n_loops=0):
     rng = ctx.rng
     for case in corpus_cases():
+        if "loop" in case:
+            check_loop_group(ctx, case, schedules=case.get("schedules"), tag_prefix="corpus:")
+            continue
         runs = check_group(ctx, case, schedules=case.get("schedules"), tag_prefix="corpus:")
         if case.get("witness") and runs:
             got = [[r.result, r.final] for r in runs]
@@ -461,8 +673,14 @@ def run_n(ctx, n, k):
                     else "witness:C02W-NOT-reproduced (code changed? then retire the known finding)")
             ctx.extra["witness_C02W"] = {"expected": want, "observed": got}
     kept = []
+    kept_loops = []
     every = max(1, n // 6)
     for i in range(n):
+        if n_loops and (i * n_loops) // n != ((i + 1) * n_loops) // n:      # exactly n_loops groups, spread evenly
+            lcase = gen_loop_group(rng, max(2, k - 2))
+            lruns = check_loop_group(ctx, lcase)
+            if lruns and len(kept_loops) < 4 and lruns[-1].result != "stopped":
+                kept_loops.append((lcase, lruns[-1]))
         case = gen_case(rng, k)
         runs = check_group(ctx, case)
         if runs and i % every == 0 and len(kept) < (6 if n < 200 else 30):
@@ -470,14 +688,28 @@ def run_n(ctx, n, k):
     # a sample of the schedules is run again after all the unrelated workflows (same component names, other roles):
     # the real Controller must answer the same (harness/c01.py rerun_later)
     C01.rerun_later(ctx, kept)
+    for lcase, res in reversed(kept_loops):
+        try:
+            again = CS.run_loop(dict(lcase, scripts={r: list(v) for r, v in (lcase.get("scripts") or {}).items()},
+                                     _rng=None, flavour="given"),
+                                lambda sim: detsim.scripted(res.ops, finish=True))
+        except Exception as exc:  # noqa
+            ctx.tag("rerun:loop-build-error:" + type(exc).__name__)
+            continue
+        ctx.tag("loop-groups-run-again-later-in-the-same-process")
+        first = {"refs": res.refs, "results": res.results, "final": res.final, "ops": res.ops}
+        later = {"refs": again.refs, "results": again.results, "final": again.final, "ops": again.ops}
+        if common.canon(first) != common.canon(later):
+            ctx.fail("result-depends-on-earlier-cases", dict(lcase, schedules=[res.ops]),
+                     {"first_run": first, "later_run": later})
 
 
 def run(ctx):
     setup(ctx)
     if ctx.tier == "quick":
-        run_n(ctx, 75, 5)
+        run_n(ctx, 75, 5, n_loops=19)
     else:
-        run_n(ctx, 360, 10)
+        run_n(ctx, 360, 10, n_loops=120)
 
 
 def replay(ctx, doc):
@@ -492,4 +724,7 @@ def replay(ctx, doc):
         raise common.InfraError("replay file carries no input")
     if "schedules" not in case and "ops" in case:
         case = dict(case, schedules=[case["ops"]])
+    if "loop" in case:
+        check_loop_group(ctx, case, schedules=case.get("schedules"), tag_prefix="replay:")
+        return
     check_group(ctx, case, schedules=case.get("schedules"), tag_prefix="replay:")
